@@ -756,6 +756,10 @@ class LMDBStorage(BaseStorage):
 class Subscription(BaseSubscription):
     def prepare(self):
         self.query = planner(self.filters, log=self.log)
+        # a client-supplied limit never exceeds the configured maximum
+        for i, plan in enumerate(self.query):
+            if plan.limit is None or plan.limit > self.default_limit:
+                self.query[i] = plan._replace(limit=self.default_limit)
         return bool(self.query)
 
     async def run_query(self):
